@@ -197,9 +197,9 @@ def check(run, model, tier):
         for P in payloads:
             e0 = pureeval.Obj(signal_name='SIG_A', payload=P, signal=42, __world__=True)
             try:
-                text = pureeval.call(dumps.node, [e0], globals_={'json': json_obj, 'None': None}, strict_locals=True, methods=emethods)
+                text = pureeval.call(dumps.node, [e0], globals_=dict(pureeval.module_constants(model, ev.module), json=json_obj), strict_locals=True, methods=emethods)
                 del built[:]
-                back = pureeval.call(loads.node, [text], globals_={'json': json_obj, 'Event': fake_event, 'None': None}, strict_locals=True)
+                back = pureeval.call(loads.node, [text], globals_=dict(pureeval.module_constants(model, ev.module), json=json_obj, Event=fake_event), strict_locals=True)
                 got = (getattr(back, 'signal_name', '<no event>'), getattr(back, 'payload', '<no event>')) if isinstance(back, pureeval.Obj) else ('<%r>' % (back,), None)
             except pureeval.Raised as ex_:
                 got = ('raises ' + ex_.what, None)
